@@ -424,6 +424,7 @@ type j2kArgs struct {
 	Quality  int    `json:"quality"`
 	Lossless bool   `json:"lossless"`
 	NilParam bool   `json:"nil_params"`
+	NCQ      int    `json:"custom_quant_steps"` // len(CustomQuantSteps): quality is then unused
 	Seed     uint64 `json:"seed"`
 }
 
@@ -469,7 +470,7 @@ func (a j2kArgs) representable() (bool, string) {
 		return false, "tile<0"
 	case tilesAlong(a.W, a.TW)*tilesAlong(a.H, a.TH) > 65535:
 		return false, "tiles>65535"
-	case !a.Lossless && (a.Quality < 1 || a.Quality > 100):
+	case !a.Lossless && a.NCQ == 0 && (a.Quality < 1 || a.Quality > 100):
 		return false, "quality"
 	case a.Len < a.W*a.H*a.C*bpsOf(a.P):
 		return false, "short-buffer"
@@ -489,6 +490,9 @@ func (a j2kArgs) params() *jpeg2000.EncodeParams {
 	p.TileWidth, p.TileHeight = a.TW, a.TH
 	p.Lossless = a.Lossless
 	p.Quality = a.Quality
+	for i := 0; i < a.NCQ; i++ {
+		p.CustomQuantSteps = append(p.CustomQuantSteps, 1.0+float64(i)/4)
+	}
 	return p
 }
 
@@ -570,6 +574,8 @@ func genJ2K(r *Rand, nRandom int, thor bool) []j2kArgs {
 			a.Lossless = false
 			a.Quality = q
 			a.Len = need(a)
+			add(a)
+			a.NCQ = 3*a.Levels + 1 // explicit step sizes: the quality value is not used
 			add(a)
 		}
 		for _, t := range [][2]int{{-1, -1}, {-1, 2}, {2, -1}, {0, 0}, {1, 1}, {2, 3}, {5, 4}, {6, 6}, {65536, 65536}} {
@@ -654,7 +660,7 @@ func c17J2K(c *Ctx) {
 				ll = "1"
 			}
 			m := c.M.Call("frm_j2k_accepts", itoa(l), itoa(a.W), itoa(a.H), itoa(a.C), itoa(a.P), itoa(a.Levels), itoa(a.CBW),
-				itoa(a.CBH), itoa(a.Layers), itoa(a.Prog), itoa(a.TW), itoa(a.TH), itoa(a.Quality), ll)
+				itoa(a.CBH), itoa(a.Layers), itoa(a.Prog), itoa(a.TW), itoa(a.TH), itoa(a.Quality), ll, itoa(a.NCQ))
 			impl := "1"
 			if !pn && err != nil {
 				impl = "0"
